@@ -29,7 +29,7 @@ func init() {
 			return 2
 		}
 		return r.Finish(ev.Coverage{States: states, Transitions: trans, Traces: states,
-			Rule: "differential replay: ten scenarios (a relay history continued once by the node that kept running and once by a node restarted in the middle — the application re-opened on a copy of its database —, which must give identical traces; the client histories and the proof-of-work update replayed twice inside one process on fresh chains — a node that has been running and a freshly restarted one must agree, nothing may be left behind in package-level variables or caches; the registered software-upgrade handler v0.2 executing at its planned height between relay traffic; full three-chain relay history with every packet kind and relay form; aggregate registrations/conversions/toggles/updates/self-destruct; vesting blocks with parameter changes; staking and governance through the system contracts incl. nested and look-alike callers; BSC header chain across an epoch with a validator-set switch + ETH fork on chain id 4 + TSS updates through MsgUpdateClient; a main-net ETH update with real ethash; an exhaustive explicit-state search of the real BSC client — every candidate next header at every reachable state for five validator-set configurations, verdict of every transition recorded) are each executed in separate processes in every environment of the lattice GOMAXPROCS {1,4,16} x TMPDIR {default, other directory, non-existent} x map-iteration policy {native, ascending, descending, rotated} x wall clock {real, 1970, +30 years} (thorough: full product; quick: every value of every dimension plus the far corner); map iteration order and the wall clock are made explicit choices by a generated overlay that rewrites every range over a map and every time.Now()/time.Since in teleport's own packages (sites listed in notes); the per-transaction (code, gas, data, log, events) and per-block (app hash) traces must be identical. states = (scenario, environment) executions, transitions = trace lines compared",
+			Rule: "differential replay: ten scenarios (a relay history continued once by the node that kept running and once by a node restarted in the middle — the application re-opened on a copy of its database —, which must give identical traces; the client histories and the proof-of-work update replayed twice inside one process on fresh chains — a node that has been running and a freshly restarted one must agree, nothing may be left behind in package-level variables or caches; the registered software-upgrade handler v0.2 executing at its planned height between relay traffic; full three-chain relay history with every packet kind and relay form; aggregate registrations/conversions/toggles/updates/self-destruct; vesting blocks with parameter changes; staking and governance through the system contracts incl. nested and look-alike callers; BSC header chain across an epoch with a validator-set switch + ETH fork on chain id 4 + TSS updates through MsgUpdateClient; a main-net ETH update with real ethash; an exhaustive explicit-state search of the real BSC client — every candidate next header at every reachable state for five validator-set configurations, verdict of every transition recorded) are each executed in separate processes in every environment of the lattice GOMAXPROCS {1,4,16} x TMPDIR {default, other directory, non-existent} x map-iteration policy {native, ascending, descending, rotated} x wall clock {real, 1970, +30 years} + local files {every process in its own empty working directory and HOME; the reference run repeated as a node killed before its clean-up (unlink/rmdir made no-ops by strace injection), every file it created damaged behind its first 8 bytes, and the scenario run again in that directory} (thorough: full product; quick: every value of every dimension plus the far corner); map iteration order and the wall clock are made explicit choices by a generated overlay that rewrites every range over a map and every time.Now()/time.Since in teleport's own packages (sites listed in notes); the per-transaction (code, gas, data, log, events) and per-block (app hash) traces must be identical. states = (scenario, environment) executions, transitions = trace lines compared",
 			Exhaustive: true,
 			Bounds:     map[string]interface{}{"scenarios": c14.Scenarios, "tier": tier},
 			Assumptions: []string{"dependencies (cosmos-sdk, ethermint, go-ethereum, tendermint) are out of scope: their map ranges are not rewritten", "goroutine interleavings are varied only through GOMAXPROCS (teleport's state machine starts goroutines only inside the ethash verifier)", "the three iteration policies are representatives of the n! orders of each map"}})
